@@ -12,11 +12,14 @@ import (
 	"fmt"
 	"math/rand"
 	"os"
+	"os/exec"
 	"path/filepath"
+	"runtime"
 	"runtime/debug"
 	"sort"
 	"strconv"
 	"strings"
+	"sync"
 )
 
 // OpFn executes one op line (arguments after the op name) against the implementation and
@@ -127,6 +130,80 @@ func panicClass(r interface{}) string {
 
 var lastPanic string
 
+// slowOps marks ops that are expensive and keep global state (an in-process server): their
+// cases are sharded over worker processes (`harness exec`), results are re-assembled in order.
+var slowOps = map[string]bool{}
+
+func runAll(lines []string, workdir string) []string {
+	impl := make([]string, len(lines))
+	var slowIdx []int
+	for i, l := range lines {
+		if slowOps[strings.SplitN(l, " ", 2)[0]] {
+			slowIdx = append(slowIdx, i)
+		} else {
+			impl[i] = runOp(l)
+		}
+	}
+	workers := runtime.NumCPU() - 2
+	if workers < 1 {
+		workers = 1
+	}
+	if len(slowIdx) < 2*workers {
+		for _, i := range slowIdx {
+			impl[i] = runOp(lines[i])
+		}
+		return impl
+	}
+	var wg sync.WaitGroup
+	for w := 0; w < workers; w++ {
+		var mine []int
+		for k := w; k < len(slowIdx); k += workers {
+			mine = append(mine, slowIdx[k])
+		}
+		wg.Add(1)
+		go func(w int, mine []int) {
+			defer wg.Done()
+			in := filepath.Join(workdir, fmt.Sprintf("shard%d.ops", w))
+			outf := filepath.Join(workdir, fmt.Sprintf("shard%d.out", w))
+			sub := make([]string, len(mine))
+			for k, i := range mine {
+				sub[k] = lines[i]
+			}
+			writeLines(in, sub)
+			cmd := exec.Command(os.Args[0], "exec", in, outf)
+			wdir := filepath.Join(workdir, fmt.Sprintf("w%d", w))
+			cmd.Env = append(os.Environ(), "VERIF_WORK="+wdir)
+			os.MkdirAll(wdir, 0o755)
+			err := cmd.Run()
+			res := readLinesRaw(outf)
+			for k, i := range mine {
+				if k < len(res) {
+					impl[i] = res[k]
+				} else {
+					impl[i] = fmt.Sprintf("harness:worker-failed %v", err)
+				}
+			}
+			os.RemoveAll(wdir)
+			os.Remove(in)
+			os.Remove(outf)
+		}(w, mine)
+	}
+	wg.Wait()
+	return impl
+}
+
+func readLinesRaw(path string) []string {
+	b, err := os.ReadFile(path)
+	if err != nil {
+		return nil
+	}
+	ls := strings.Split(string(b), "\n")
+	if len(ls) > 0 && ls[len(ls)-1] == "" {
+		ls = ls[:len(ls)-1]
+	}
+	return ls
+}
+
 func runOp(line string) (res string) {
 	defer func() {
 		if r := recover(); r != nil {
@@ -203,10 +280,9 @@ func main() {
 			}
 		}
 		gen(g)
-		impl := make([]string, len(g.lines))
+		impl := runAll(g.lines, out)
 		hist := map[string]int{}
 		for i, l := range g.lines {
-			impl[i] = runOp(l)
 			for _, t := range g.tags[i] {
 				hist[t]++
 			}
@@ -231,22 +307,20 @@ func main() {
 			keys = append(keys, k)
 		}
 		sort.Strings(keys)
-		ordered := make([][2]interface{}, 0, len(keys))
-		for _, k := range keys {
-			ordered = append(ordered, [2]interface{}{k, hist[k]})
-		}
 		b, _ := json.Marshal(map[string]interface{}{"cases": len(g.lines), "histogram": hist})
 		must(os.WriteFile(filepath.Join(out, "stats.json"), b, 0o644))
 	case "exec":
 		lines := readLines(os.Args[2])
-		impl := make([]string, len(lines))
-		for i, l := range lines {
-			impl[i] = runOp(l)
-			if strings.HasPrefix(impl[i], "panic:") && os.Getenv("VERIF_SHOW_PANIC") != "" {
+		f, err := os.Create(os.Args[3])
+		must(err)
+		for _, l := range lines {
+			r := runOp(l)
+			if strings.HasPrefix(r, "panic:") && os.Getenv("VERIF_SHOW_PANIC") != "" {
 				fmt.Fprintln(os.Stderr, lastPanic)
 			}
+			f.WriteString(r + "\n")
 		}
-		writeLines(os.Args[3], impl)
+		must(f.Close())
 	default:
 		os.Exit(2)
 	}
